@@ -64,7 +64,19 @@ Sern == /\ l <= Len(TraceLog) /\ Ln.e = "sern" /\ cur # <<>>
 Copy == /\ l <= Len(TraceLog) /\ Ln.e = "copy" /\ cur # <<>>
         /\ (J("C11") => CopyJudge(Ln, cur[1]))
         /\ UNCHANGED cur /\ l' = l + 1
+(* an array (definite, indefinite, or tagged) whose `count` members are all the same `len`-byte string: the size is the exact total *)
+(* although it exceeds 2^32, serialize_alloc asks for exactly that much (or nothing), a small buffer is refused                  *)
+HeadLen(a) == 1 + ShortestArgw(a)
+BigTotal(ln) == LET member == AddSmall(ln.len, HeadLen(ln.len))
+                    head == IF ln.kind = 1 THEN 0 ELSE HeadLen(ln.count) IN
+                AddSmall(Mul(ln.count, member), head + ln.wrap)
+BigSer == /\ l <= Len(TraceLog) /\ Ln.e = "bigser"
+          /\ (J("C07") => /\ Eq(Ln.size, BigTotal(Ln))
+                           /\ (Ln.acalled => Eq(Ln.areq, Ln.size))
+                           /\ (Strip(Ln.aret) = <<>> \/ Eq(Ln.aret, Ln.size))
+                           /\ Ln.small = 0)
+          /\ UNCHANGED cur /\ l' = l + 1
 (* a "leak" line is never accepted: releasing the tree must release everything *)
-Next == Ser \/ Sern \/ Copy
+Next == Ser \/ Sern \/ Copy \/ BigSer
 Spec == Init /\ [][Next]_<<l, cur>>
 =============================================================================
